@@ -35,6 +35,63 @@ type Everyone struct {
 	*Admin
 }
 
+// UserIdKey is the key input type of the services that identify a user by id alone.
+type UserIdKey struct{ Id int64 }
+
+// StrictKeys returns a description of the first key object, in a federation hop received by a service, that carries
+// a field the service's own key input type does not declare ("" if there is none). thunder's own argument parser
+// ignores unknown input fields, so validating the sub-query does not show them.
+func StrictKeys(schema *graphql.Schema, rq *graphql.Query) string {
+	q, _ := schema.Query.(*graphql.Object)
+	if q == nil || rq.SelectionSet == nil {
+		return ""
+	}
+	for _, top := range rq.SelectionSet.Selections {
+		if top.Name != "_federation" || top.SelectionSet == nil || q.Fields["_federation"] == nil {
+			continue
+		}
+		fed, _ := q.Fields["_federation"].Type.(*graphql.Object)
+		if nn, ok := q.Fields["_federation"].Type.(*graphql.NonNull); ok {
+			fed, _ = nn.Type.(*graphql.Object)
+		}
+		if fed == nil {
+			continue
+		}
+		for _, hop := range top.SelectionSet.Selections {
+			f := fed.Fields[hop.Name]
+			if f == nil {
+				continue
+			}
+			var t graphql.Type = f.Args["keys"]
+			for t != nil {
+				switch x := t.(type) {
+				case *graphql.NonNull:
+					t = x.Type
+					continue
+				case *graphql.List:
+					t = x.Type
+					continue
+				}
+				break
+			}
+			in, _ := t.(*graphql.InputObject)
+			keys, _ := hop.UnparsedArgs["keys"].([]interface{})
+			if in == nil {
+				continue
+			}
+			for _, k := range keys {
+				m, _ := k.(map[string]interface{})
+				for name := range m {
+					if _, ok := in.InputFields[name]; !ok {
+						return fmt.Sprintf("%s was sent a key with field %q, which its key input type %s does not declare", hop.Name, name, in.Name)
+					}
+				}
+			}
+		}
+	}
+	return ""
+}
+
 type PickReport struct {
 	Ok     bool
 	Picked int64
@@ -142,7 +199,18 @@ func Build(d *Data, a Assignment, service string) *schemabuilder.Schema {
 		if mono {
 			user = s.Object("User", User{})
 		} else {
-			user = s.Object("User", User{}, schemabuilder.FetchObjectFromKeys(func(args struct{ Keys []*User }) []*User { return args.Keys }))
+			if service == "s1" {
+				user = s.Object("User", User{}, schemabuilder.FetchObjectFromKeys(func(args struct{ Keys []*User }) []*User { return args.Keys }))
+			} else {
+				// the other services identify a user by its id alone (a narrower key input type than s1's)
+				user = s.Object("User", User{}, schemabuilder.FetchObjectFromKeys(func(args struct{ Keys []*UserIdKey }) []*User {
+					out := make([]*User, len(args.Keys))
+					for i, k := range args.Keys {
+						out[i] = d.user(k.Id)
+					}
+					return out
+				}))
+			}
 		}
 		user.Key("id")
 	}
